@@ -142,7 +142,7 @@ func genProgram(t *rapid.T) testCase {
 	g.allowDiscard = g.chance(30)
 	g.av = map[string]bool{}
 	for _, tag := range []string{"dxil-buffer-access-chain", "dxil-private-vector", "dxil-local-matrix-var",
-		"dxil-bool-shortcircuit-in-loop", "dxil-not-vec-bool", "dxil-numwg-unused"} {
+		"dxil-bool-shortcircuit", "dxil-workgroup-vector-array", "dxil-vector-unary-ops", "dxil-uvec-rem", "dxil-bool-var", "dxil-num-workgroups-psv", "dxil-matrix-dynamic-column", "dxil-place-component-store"} {
 		g.av[tag] = ev.Excluded(tag)
 	}
 	g.push() // module scope
@@ -230,6 +230,9 @@ func genProgram(t *rapid.T) testCase {
 	}
 	if g.stage == "compute" && g.chance(35) {
 		t := arr(g.valueType(false, false), g.n(1, 16))
+		if g.av["dxil-workgroup-vector-array"] {
+			t.elem = scalar(t.elem.s)
+		}
 		n := g.fresh("wg")
 		fmt.Fprintf(&g.sb, "var<workgroup> %s: %s;\n", n, t)
 		g.addPlaces(n, t, true, -1)
@@ -269,6 +272,9 @@ func genProgram(t *rapid.T) testCase {
 		bis := []bi{{"global_invocation_id", "gid", vec(3, kU32)}, {"local_invocation_id", "lid", vec(3, kU32)},
 			{"local_invocation_index", "lidx", scalar(kU32)}, {"workgroup_id", "wid", vec(3, kU32)}, {"num_workgroups", "nwg", vec(3, kU32)}}
 		for i, b := range bis {
+			if b.b == "num_workgroups" && g.av["dxil-num-workgroups-psv"] {
+				continue
+			}
 			if i == 0 || g.chance(30) {
 				params = append(params, fmt.Sprintf("@builtin(%s) %s: %s", b.b, b.n, b.t))
 				g.declare(scopeVar{name: b.n, ty: b.t})
@@ -432,10 +438,6 @@ func genProgram(t *rapid.T) testCase {
 		_ = outName
 	}
 	g.preamble(&w, seed)
-	if ifc.NumWorkgroups && g.av["dxil-numwg-unused"] {
-		// keep the builtin used (known finding: PSV0 declares its buffer even when unused)
-		w.WriteString("  acc = acc ^ nwg.x;\n")
-	}
 	g.fnDepth = 0
 	g.body(&w, stmts)
 
